@@ -1,9 +1,21 @@
 ENGINES = [
     {"name": "venv (E3)", "path": "/verif/engine/venv", "serves_properties": ["C01"], "kind_free_text": "scripted crypto/rand.Reader + seeded CPRNG: every random draw is a choice point; executions with 0,1,2 deviations (min/max/short/error) are enumerated"},
-    {"name": "vkit (E2)", "path": "/verif/engine/vkit", "serves_properties": ["C01", "C02", "C03", "C15", "C19"], "kind_free_text": "bounded exhaustive enumeration of inputs/alterations with stable case indices, sharding and measured coverage"},
+    {"name": "vkit (E2)", "path": "/verif/engine/vkit", "serves_properties": ["C01", "C02", "C03", "C04", "C05", "C15", "C19"], "kind_free_text": "bounded exhaustive enumeration of inputs/alterations with stable case indices, sharding and measured coverage"},
 ]
 NOT_BUILT_REASON = {}
 META = {
+    "C04": {
+        "engine": "vkit (E2)",
+        "technique": "exhaustive enumeration of all 2^k disclosure subsets x value rotations x session kinds, with exact key-set, value and leaf-scan oracles",
+        "text": "For k=1..4 (thorough 6) attributes, six rotations of the boundary value alphabet over positions, every subset, both session kinds, plain and non-revocation credentials on toy/1024/2048-bit keys, through both proving paths: the proof must verify, report exactly the chosen indices with true values, answer every other index, give an exact timestamp contribution, and contain no hidden value or its hash exponent as JSON leaf or substring.",
+        "note": "Trusted: harness trapdoor signer. Statistical hiding of responses is not decidable here; keyshare / random-blind variants are exercised by C14 / C06.",
+    },
+    "C05": {
+        "engine": "vkit (E2)",
+        "technique": "exhaustive enumeration of message-block shapes, a boundary catalogue of trapdoor-forged exponents and single-component alterations against a reference CL predicate",
+        "text": "Real SignMessageBlock over every block length 1..len(R) with boundary-sized entries, 1..4 randomisations; forged signatures satisfying the equation for every exponent of a ~35-entry catalogue (neighbouring primes on both sides of both interval ends, even/odd ends, primes one bit short/long, in-range semiprimes, small primes) with and without KeyshareP; every component altered. Verify must equal the reference predicate.",
+        "note": "Trusted: math/big primality. Exponents outside the catalogue are not explored.",
+    },
     "C02": {
         "engine": "vkit (E2)",
         "technique": "exhaustive neighbour enumeration around honest (session, proof list) pairs: accepted iff unchanged",
